@@ -321,6 +321,16 @@ fn check(c: &Case, st: &mut Stats) -> Verdict {
         }
         check_combined(&left, &all_q, "merge_ingredient_lists(combine(a), combine(b))")?;
     }
+    // a list merged with an equal list (the same recipe twice): every input counts once, so twice here
+    if !all.is_empty() {
+        let mut left = combine_ingredients(&all);
+        let right = combine_ingredients(&all);
+        if let Err(p) = guard(|| cooklang_bindings::model::merge_ingredient_lists(&mut left, &right)) {
+            vbail!("c19.panic.combine", "merge_ingredient_lists panicked: {p}");
+        }
+        let twice: Vec<_> = all_q.iter().chain(all_q.iter()).cloned().collect();
+        check_combined(&left, &twice, "merge_ingredient_lists(combine(a), combine(a))")?;
+    }
     st.class_if(all.len() > 3, "combine >3 ingredients");
     st.class_if(model_combine(&all_q).values().any(|c| c.count > 1), "combine merges entries");
     Ok(())
